@@ -90,6 +90,44 @@ def session():
     expect("one Ack turned into an Err", r["status"] in ("ok", "known"), False)
 
 
+def rest_and_agg():
+    log("REST API session and aggregated subscription (Trace_Session)")
+    sc = {"rest": True, "sessions": {
+        "c1": [{"op": "psub", "c": "c1", "pat": ["a", "#"], "unique": False, "live": True, "agg": 1, "tid": 1, "wait": True},
+               {"op": "set", "c": "c1", "key": ["a", "b"], "val": "v1", "tid": 2, "wait": True}, {"op": "barrier", "n": 0}, {"op": "barrier", "n": 1}],
+        "rest1": [{"op": "barrier", "n": 0}, {"op": "get", "key": ["a", "b"]}, {"op": "get", "key": ["a", "zz"]}, {"op": "set", "key": ["a", "c"], "val": "v2"},
+                  {"op": "set", "key": ["a", "c"], "val": "v3"}, {"op": "pdelete", "pat": ["a", "?"]}, {"op": "barrier", "n": 1}]}}
+    path = os.path.join(d, "sc_rest.ndjson")
+    open(path, "w").write(json.dumps({"hdr": True, "meaning": {}}) + "\n" + json.dumps(sc) + "\n")
+    raw = os.path.join(d, "raw_rest.ndjson")
+    vlib.run_harness(["sock-run", path, raw, os.path.join(d, "sock")])
+    tr = os.path.join(d, "tr_rest.ndjson")
+    sess.postprocess(raw, tr)
+    known = vlib.known_flags()
+    r = sess.validate(d, tr, known, 600)
+    expect("recorded REST requests and aggregated stream", r["status"] in ("ok", "known"), True)
+    lines = open(tr).read().splitlines()
+    o = json.loads(lines[1])
+    for rec in o["sessions"]["rest1"]["log"]:
+        if rec.get("rep", {}).get("t") == "herr":
+            rec["rep"]["status"] = 400           # NoSuchValue is 404
+            break
+    tr2 = os.path.join(d, "tr_rest_bad.ndjson")
+    open(tr2, "w").write(lines[0] + "\n" + json.dumps(o) + "\n")
+    r = sess.validate(d, tr2, known, 600)
+    expect("HTTP status of one REST answer changed", r["status"] in ("ok", "known"), False)
+    o = json.loads(lines[1])
+    x = o["aggs"][0]
+    # one event of the aggregated stream lost (the first set of a/c)
+    o["aggflat"][x] = [e for e in o["aggflat"][x] if not (e[1] == ["a", "c"] and e[2] == "v2")]
+    for b in o["streams"][x]:
+        b["kvs"] = [kv for kv in b["kvs"] if not (kv[0] == ["a", "c"] and kv[1] == "v2")]
+    o["streams"][x] = [b for b in o["streams"][x] if b["kvs"]]
+    open(tr2, "w").write(lines[0] + "\n" + json.dumps(o) + "\n")
+    r = sess.validate(d, tr2, known, 600)
+    expect("one event of the aggregated stream removed", r["status"] in ("ok", "known"), False)
+
+
 def election():
     log("election trace (Trace_Election)")
     import hashlib, shutil
@@ -151,7 +189,7 @@ def buffer():
     expect("the stale value reported as sent", val(tr2), False)
 
 
-for f in (core, session, election, buffer):
+for f in (core, session, rest_and_agg, election, buffer):
     f()
 log("selftest: " + ("all pairs behave as expected" if not bad else "UNEXPECTED: " + ", ".join(bad)))
 sys.exit(1 if bad else 0)
